@@ -76,7 +76,7 @@ type program struct {
 }
 
 func (p *plugins) Load(paths []string) (Program, error) {
-	loaded, err := load(paths...)
+	loaded, err := load(true, paths...)
 	if err != nil {
 		return nil, err
 	}
@@ -330,7 +330,7 @@ func (pg *program) generatePackage(pkgInfo *loader.PackageInfo) error {
 		undefined = newundefined
 
 		// reload path with newly generated code, with the hope that some types are now inferable.
-		thisprogram, err = load(path)
+		thisprogram, err = load(false, path)
 		if err != nil {
 			return err
 		}
